@@ -28,6 +28,8 @@ pub fn comp_alpha_x(count: usize, seed: u64, top_band: u64) -> Vec<N> {
         p - n(2),
         n(3),
         p - n(3),
+        mulm(&((p - n(1)) / n(2)), &ri, p),             // stored (q-1)/2: its double is exactly q-1
+        mulm(&((p + n(1)) / n(2)), &ri, p),             // stored (q+1)/2: its double is exactly q+1
     ];
     v.extend(fp_small(p, count, seed));
     let mut v = dedup(v);
